@@ -148,16 +148,20 @@ def run(ctx):
                 return ts
 
             def on_node(s, c2, node, ts):
-                if node.stmt is not None and node.stmt.k == 'continue' and node.k == 'join':
-                    s.skips += 1
-                    if 'nonzero' not in ts:
-                        s.violate(c2, 'missing-skipped', 'a chunk is skipped without its valid flag being known '
-                                  'non-zero: a missing chunk may never be requested', inst='skip')
+                # an iteration of the chunk walk that comes back to the loop head without having called range_add
+                # skipped its chunk (whether by `continue`, by an if-block around the call, ...)
+                if c2.fn is s.fn and node.loop is not None:
+                    if 'iter' in ts and 'added' not in ts:
+                        s.skips += 1
+                        if 'nonzero' not in ts:
+                            s.violate(c2, 'missing-skipped', 'a chunk is skipped without its valid flag being known '
+                                      'non-zero: a missing chunk may never be requested', inst='skip')
+                    ts = frozenset(['iter'])
                 return ts
 
             def after_call(s, c2, call, ts, mask):
                 if callee_name(call) == 'range_add':
-                    ts = ts - frozenset(['tested', 'nonzero'])
+                    ts = (ts - frozenset(['tested', 'nonzero'])) | frozenset(['added'])
                 return ts
         sk = Skip(prog, mr)
         run_rule(prog, mr, sk)
@@ -216,6 +220,9 @@ def run(ctx):
               'range whenever a chunk is missing (%d edge state(s))' % lm.tests if not lm.violations else
               lm.violations[0].msg, mr.file, lm.violations[0].node.line if lm.violations else mr.line,
               path=lm.violations[0].path if lm.violations else None, config=config)
+        # ---- h  merging: the list is merged after every addition, before the count is compared with the limit
+        #         and before the range is handed out, and the merge predicate is "touching or overlapping"
+        merge_clauses(ck, prog, config, mr)
         # ---- b
         ra = prog.need_func('range_add')
         subst = unique_defs(ra)
@@ -318,17 +325,129 @@ def run(ctx):
               ra.file, lg.violations[0].node.line if lg.violations else ra.line, config=config)
 
 
+def merge_clauses(ck, prog, config, mr):
+    ra = prog.need_func('range_add')
+    mg = prog.need_func('range_merge_combined')
+
+    class Inside(FactRule):
+        """does every success exit of range_add pass the merge?"""
+        name = 'R2.merge'
+
+        def __init__(s, prog, fn):
+            FactRule.__init__(s, prog, fn)
+            s.succ = 0
+            s.unmerged = []
+
+        def after_call(s, c2, call, ts, mask):
+            if c2.fn is s.fn and callee_name(call) == mg.name:
+                ts = ts | frozenset(['merged'])
+            return ts
+
+        def on_return(s, c2, node, mask, ts):
+            if c2.fn is s.fn and mask & (P1 | POS):
+                s.succ += 1
+                if 'merged' not in ts:
+                    s.unmerged.append(node)
+            return ts
+    ins = Inside(prog, ra)
+    run_rule(prog, ra, ins)
+    ck.require(ins.succ >= 1, 'range_add has no success exit')
+    merge_inside = not ins.unmerged
+
+    class Outer(FactRule):
+        name = 'R2.merge'
+
+        def __init__(s, prog, fn):
+            FactRule.__init__(s, prog, fn)
+            s.adds = 0
+
+        def after_call(s, c2, call, ts, mask):
+            if c2.fn is not s.fn:
+                return ts
+            n = callee_name(call)
+            if n == ra.name:
+                s.adds += 1
+                if not merge_inside:
+                    ts = ts | frozenset(['dirty'])
+            elif n == mg.name:
+                ts = ts - frozenset(['dirty'])
+            return ts
+
+        def on_edge(s, c2, node, label, refined, ts):
+            if c2.fn is s.fn and 'dirty' in ts:
+                op, l, r = atom_cmp(node.e, label)
+                if last_field(l) == 'count' or last_field(r) == 'count':
+                    s.violate(c2, 'limit-unmerged', 'the number of ranges is compared with the limit after range_add() but '
+                              'before the list was merged: a chunk that directly continues the previous range counts as '
+                              'a range of its own and the request can end with two adjacent ranges', inst='limit', node=node)
+            return ts
+
+        def on_return(s, c2, node, mask, ts):
+            if c2.fn is s.fn and 'dirty' in ts and not (node.e is not None and strip(node.e).k == 'null'):
+                s.violate(c2, 'unmerged-result', 'the range is returned after range_add() without merging: adjacent '
+                          'chunks stay separate ranges', inst='result', node=node)
+            return ts
+    out = Outer(prog, mr)
+    run_rule(prog, mr, out)
+    ck.require(out.adds >= 1, 'zck_get_missing_range no longer calls range_add')
+    ck.ob('C10-h', 'R2.merge', mr.name, 'merge-before-limit', not out.violations,
+          ('range_add() merges on every success exit (%d)' % ins.succ if merge_inside else
+           'the caller merges after every range_add() before it looks at the count or returns') if not out.violations
+          else out.violations[0].msg, mr.file, out.violations[0].node.line if out.violations else mr.line,
+          path=out.violations[0].path if out.violations else None, config=config)
+    # the merge predicate: two neighbours are merged iff  next.start <= this.end + 1
+    subst = unique_defs(mg)
+    found = []
+    for ex in all_exprs(mg):
+        for n in walk(ex):
+            if n.k == 'bin' and n.op in ('<', '<=', '>', '>='):
+                l, r = lin(n.a[0], subst), lin(n.a[1], subst)
+                if l is None or r is None:
+                    continue
+                d = l - r
+                ends = [k for k in d.t if k.endswith('->end')]
+                starts = [k for k in d.t if k.endswith('->start')]
+                if len(ends) == 1 and len(starts) == 1 and len(d.t) == 2:
+                    e_, s_ = ends[0], starts[0]
+                    # normalise to  end - start (op) c
+                    if d.t[e_] == -1:
+                        d = -d
+                        op = {'<': '>', '<=': '>=', '>': '<', '>=': '<='}[n.op]
+                    else:
+                        op = n.op
+                    if d.t[e_] == 1 and d.t[s_] == -1:
+                        found.append((op, d.c, n))
+    ok = False
+    detail = 'no comparison between an item\'s end and its neighbour\'s start in %s()' % mg.name
+    for op, c, n in found:
+        # merge when end - start + c >= 0 with c = 1  (end >= start - 1), or its negation for "move on":  end - start + 1 < 0
+        if (op == '>=' and c == 1) or (op == '>' and c == 2) or (op == '<' and c == 1) or (op == '<=' and c == 2):
+            ok = True
+        detail = 'neighbours are compared as end - start %s %d' % (op, -c)
+    ck.ob('C10-h', 'R8.merge-predicate', mg.name, 'touching-or-overlapping', ok,
+          'two neighbouring ranges are merged exactly when next.start <= end + 1 (overlapping or adjacent)' if ok else
+          'merge predicate differs from "next.start <= end + 1": %s: adjacent ranges stay separate (or separate ranges '
+          'are merged over bytes that were not missing)' % detail, mg.file, found[0][2].line if found else mg.line,
+          config=config)
+
+
 CLAIM = {
     'technique': 'guard facts on the skip test, symbolic linear extents of range_add, typestate over the rendering '
-                 'loop (snprintf space vs result, retry path, trim guard), empty-extent lint, limit-after-add typestate',
+                 'loop (snprintf space vs result, retry path, trim guard), empty-extent lint, limit-after-add typestate, merge-before-limit typestate and linear normal form of the merge predicate',
     'text': 'static analysis: decides C10-a..f (mechanism) - no valid chunk reaches range_add and no missing chunk is '
             'skipped; each range is [start + header length, start + header length + comp_length - 1] with a range '
             'index entry of that size pointing at the chunk; the rendering accepts an entry only when it fitted, '
-            're-renders after growing, and trims only a non-empty string. Merge/limit combinatorics are not decided. C10-g: the limit can stop the walk only after a range was added in the same iteration.',
+            're-renders after growing, and trims only a non-empty string. Merge/limit combinatorics are not decided. C10-g: the limit can stop the walk only after a range was added in the same iteration. C10-h: the list is merged after every addition before the count is compared or the range returned, and neighbours are merged exactly when they touch or overlap.',
     'note': 'trusted: clang 14 front end; snprintf returns the untruncated length (C99); access-path non-aliasing',
 }
 
 MUTANTS = [
+    {'id': 'm10m', 'desc': 'adjacent ranges no longer merged (>= becomes >)', 'file': 'src/lib/dl/range.c',
+     'old': 'if(ptr->next && ptr->end >= ptr->next->start-1) {', 'new': 'if(ptr->next && ptr->end > ptr->next->start-1) {',
+     'expect': 'R8.merge-predicate range_merge_combined'},
+    {'id': 'n10m', 'desc': 'merge predicate with the one moved to the other side', 'file': 'src/lib/dl/range.c',
+     'old': 'if(ptr->next && ptr->end >= ptr->next->start-1) {', 'new': 'if(ptr->next && ptr->end + 1 >= ptr->next->start) {',
+     'expect': None},
     {'id': 'm19', 'desc': 'skip only failed chunks', 'file': 'src/lib/dl/range.c',
      'old': """        if(chk->valid)
             continue;""", 'new': """        if(chk->valid == -1)
